@@ -45,6 +45,9 @@ class ZarrCollection(SyncedCollection):
 
     _backend = __name__  # type: ignore
 
+    # Both ZarrDict and ZarrList may contain nested mappings.
+    _validators = (require_string_key,)
+
     def __init__(self, group=None, name=None, codec=None, *args, **kwargs):
         if not ZARR:
             raise RuntimeError(
